@@ -58,7 +58,7 @@ def run_scenario(scen, api, ext, proto):
     w.install()
     c = pc.Client(V2, client_id="cid", protocol=PROTO[proto])
     name_locks(c)
-    res = {"held": None, "outcome": "not-reached", "sock": None}
+    res = {"held": None, "outcome": "not-reached", "sock": None, "lostwake": 0}
     fired = {"n": 0}
     cbname = cb_of(scen)
     installed = set()
@@ -92,8 +92,14 @@ def run_scenario(scen, api, ext, proto):
         except Exception as e:  # noqa: BLE001
             res["outcome"] = f"exc:{type(e).__name__}"
 
+    reg = {"w": False}        # is a write registration outstanding, as the application's event loop sees it
+
     def hook(name):
         def cb(cl, *a):
+            if name == "on_socket_register_write":
+                reg["w"] = True
+            elif name in ("on_socket_unregister_write", "on_socket_close"):
+                reg["w"] = False
             if name == cbname:
                 nested(cl)
         return cb
@@ -176,10 +182,13 @@ def run_scenario(scen, api, ext, proto):
             c.publish("t", b"x", 0)
             c.loop_write()
         # the next loop iteration: whatever the nested call queued must reach the transport
+        # (an external event loop gives write events only to a socket with an outstanding write registration)
         pump = 0
-        while c._sock is not None and c.want_write() and pump < 5:
+        res["lostwake"] = int(ext and c._sock is not None and c.want_write() and not reg["w"])
+        while c._sock is not None and c.want_write() and pump < 5 and (not ext or reg["w"]):
             c.loop_write()
             pump += 1
+            res["lostwake"] = res["lostwake"] or int(ext and c._sock is not None and c.want_write() and not reg["w"])
     except SelfDeadlock as e:
         if res["outcome"] in ("not-reached", "returned"):
             res["outcome"] = f"deadlock-outer:{e}"
@@ -217,7 +226,7 @@ def run_scenario(scen, api, ext, proto):
 
 class LockStream:
     name = "lockscen"
-    props = ["C18"]
+    props = ["C18", "C16"]
     has_model = False
 
     def gen(self, rng, tier):
@@ -233,7 +242,7 @@ class LockStream:
             t = line.split()
             res, installed, written = run_scenario(t[1], t[2], t[3] == "ext=1", int(t[4].split("=")[1]))
             obs.append(f"held={','.join(res['held'] or []) if res['held'] is not None else '?'} outcome={res['outcome']} "
-                       f"written={written} sock={res['sock']} installed={','.join(installed)}")
+                       f"written={written} sock={res['sock']} lostwake={res['lostwake']} installed={','.join(installed)}")
         return obs
 
     @staticmethod
@@ -290,7 +299,18 @@ class LockStream:
                     hits.append((i, "not-written", f"packet of {w[2]}() called inside {w[1]} ({w[3]}) was not written by the enclosing or the next loop iteration"))
         return hits
 
-    monitors = {"C18": monitor_C18}
+    def monitor_C16(self, case, obs):
+        """C16 in the presence of API calls made from inside callbacks: whenever control is back with the application, an open
+        socket and unsent data, a write registration is outstanding (as seen through the application's own socket callbacks)"""
+        hits = []
+        for i, (line, o) in enumerate(zip(case, obs)):
+            d = self.parse(o)
+            w = line.split()
+            if d.get("lostwake") == "1" and d["outcome"] == "returned":
+                hits.append((i, "lost-wakeup", f"{w[2]}() called inside {w[1]} ({w[3]}, {w[4]}): control returned with an open socket, unsent data and no write registration outstanding"))
+        return hits
+
+    monitors = {"C18": monitor_C18, "C16": monitor_C16}
 
     def features(self, case, obs):
         f = set()
